@@ -62,6 +62,11 @@ def cases(tier, seed):
                 out.append(dict(base, part="drift", dt=dt, T=T_LONG[tier]))
             for dt in DTS:
                 out.append(dict(base, part="reverse", dt=dt, T=T_REV))
+    # the same experiments with the full Newton iteration (reuse_lu_decomposition=False) instead of the default chord iteration
+    for scen in SYSTEMS[:3]:
+        base = {"scen": scen, "level": 1, "seed": seed, "full_newton": True}
+        out.append(dict(base, part="order", T=T_ORD))
+        out.append(dict(base, part="reverse", dt=DTS[0], T=T_REV))
     order = {"order": 1, "reverse": 0, "drift": 2}
     out.sort(key=lambda c: (order[c["part"]], SYSTEMS.index(c["scen"]), c["level"], -c.get("dt", 0)))
     return out
@@ -74,11 +79,14 @@ def _build(case):
     return integ.build(scen, SPRING.get(scen, False), case["level"], seed=case.get("seed", 0), grav=scen not in NOGRAV, opts=integ.options(NEWTON_TOL))
 
 
+_KW = {}
+
+
 def _run(system, dt, T):
     from vp.scen import integ
 
     N = int(round(T / dt))
-    sol = integ.run(system, "Rattle", dt, N, opts=integ.options(NEWTON_TOL))
+    sol = integ.run(system, "Rattle", dt, N, opts=integ.options(NEWTON_TOL, **_KW))
     return N, np.asarray(sol.t, float), np.asarray(sol.q, float), np.asarray(sol.u, float)
 
 
@@ -102,7 +110,10 @@ def check(case):
     from vp.scen import integ
 
     scen, level, part = case["scen"], case["level"], case["part"]
-    letters = {"scen": scen, "level": level, "part": part}
+    letters = {"scen": scen, "level": level, "part": part, "full_newton": bool(case.get("full_newton"))}
+    _KW.clear()
+    if case.get("full_newton"):
+        _KW["reuse_lu_decomposition"] = False
     if "dt" in case:
         letters["dt"] = case["dt"]
     fails, stats = [], {}
